@@ -231,7 +231,8 @@ func ToBoolean(ctx *expr.Context, input system.Collection, args ...expr.Expressi
 	// Input reading
 	value, err := system.From(input[0])
 	if err != nil {
-		return nil, err
+		// not a primitive: not convertible
+		return system.Collection{}, nil
 	}
 	// Input conversion
 	switch value := value.(type) {
@@ -347,7 +348,8 @@ func ToDecimal(ctx *expr.Context, input system.Collection, args ...expr.Expressi
 	// Input reading
 	value, err := system.From(input[0])
 	if err != nil {
-		return nil, err
+		// not a primitive: not convertible
+		return system.Collection{}, nil
 	}
 	// Input conversion
 	switch value.(type) {
@@ -393,7 +395,8 @@ func ToInteger(ctx *expr.Context, input system.Collection, args ...expr.Expressi
 	// Input reading
 	value, err := system.From(input[0])
 	if err != nil {
-		return nil, err
+		// not a primitive: not convertible
+		return system.Collection{}, nil
 	}
 	// Input conversion
 	switch value.(type) {
@@ -443,7 +446,8 @@ func ToQuantity(ctx *expr.Context, input system.Collection, args ...expr.Express
 	// Input reading
 	value, err := system.From(input[0])
 	if err != nil {
-		return nil, err
+		// not a primitive: not convertible
+		return system.Collection{}, nil
 	}
 	// Input conversion
 	switch value := value.(type) {
